@@ -27,8 +27,8 @@ LEVEL = "model_checking"
 A, B = "491510001", "491510002"
 GEN, THRESH = 3, 2
 
-EVENTS = [("login", "result"), ("login", "error"), ("login", "lost"), ("login", "late"),
-          ("ask", "result"), ("ask", "error"), ("ask", "lost"),
+EVENTS = [("login", "result"), ("login", "error"), ("login", "lost"), ("login", "late"), ("login", "held"),
+          ("ask", "result"), ("ask", "error"), ("ask", "lost"), ("ask", "held"), ("release",),
           ("close",), ("restart",), ("consume",), ("replay",)]
 
 
@@ -56,6 +56,7 @@ def build(hist):
     s.consumed = set()
     s.first_msgs = []             # pkmsg stanzas B sent to A (for replay)
     s.pending_consumes = []       # (prekey ids handed to the peer, message body, A was up)
+    s.held = []                   # upload results the server has not delivered yet: [(result stanza, prekey ids)]
     s.reissued = set()            # ids that were given to a new key (known id-reuse finding): old consumption no longer applies
     s.consume_problems = []
     s.delivered_bodies = []
@@ -190,6 +191,15 @@ def apply_event(s, ev):
                         s.uploads.append((ids, True))
                         s.pending_confirm = ids
                         continue
+                    if m == "held":
+                        # the server accepts the upload; its answer is still on the way (a second upload can overtake it)
+                        srv.do(step)
+                        s.uploads.append((ids, False))
+                        for item in list(srv.outbox[a.jid]):
+                            if item[1].tag == "iq" and item[1]["type"] == "result" and item[1]["id"] == node["id"]:
+                                srv.outbox[a.jid].remove(item)
+                                s.held.append((item[1], ids))
+                        continue
                     if m == "error":
                         srv.upload_reply = "error"
                         srv.do(step)
@@ -201,10 +211,12 @@ def apply_event(s, ev):
                         s.uploads.append((ids, False))
                         if a.up():
                             a.dispatcher.close_from_peer()
+                        s.held = []
                         continue
                     if m == "late":
                         srv.do(step)          # server stores the keys ...
                         s.uploads.append((ids, False))
+                        s.held = []
                         if a.up():
                             a.dispatcher.close_from_peer()      # ... but the result never reaches the client
                         # the queued result dies with the connection
@@ -233,11 +245,20 @@ def apply_event(s, ev):
                                                   [ProtocolTreeNode("count", {"value": "0"})]))
             s.upload_kind = "ask"
             run(ev[1], "ask")
+    elif kind == "release":
+        # the oldest outstanding upload answer finally arrives
+        if s.held and a.up():
+            node, ids = s.held.pop(0)
+            s.pending_confirm = ids
+            srv.to_client(a.jid, node)
+            run("result", "login")
     elif kind == "close":
         if a.up():
             a.dispatcher.close_from_peer()
+        s.held = []
         run("result", "login")
     elif kind == "restart":
+        s.held = []
         w.restart(A)          # new process on the same profile directory; it connects
         run("result", "login")
     elif kind == "consume":
@@ -302,6 +323,8 @@ def enabled(s, hist):
             continue
         if k == "replay" and not s.first_msgs:
             continue
+        if k == "release" and not (up and s.held):
+            continue
         if k == "consume" and not (s.a.jid in s.w.server.dir.accounts and s.w.server.dir.accounts[s.a.jid]["prekeys"]):
             continue
         out.append(ev)
@@ -322,7 +345,8 @@ def canon(s):
         status.append((sent, i in server_ids, i in s.confirmed_client))
     status.sort()
     return (tuple(status), len(s.a.control._unsent_prekeys), bool(s.a.stack.getProp(W.YowAuthenticationProtocolLayer.PROP_PASSIVE, False)),
-            s.a.control._reboot_connection, s.a.up(), len(s.a.control.iqRegistry), len(s.consumed) > 0, bool(s.first_msgs), len(server_ids))
+            s.a.control._reboot_connection, s.a.up(), len(s.a.control.iqRegistry), len(s.consumed) > 0, bool(s.first_msgs), len(server_ids),
+            tuple(len(ids) for _, ids in s.held))
 
 
 def check(s, hist):
@@ -412,7 +436,7 @@ def explore(args):
 def run(ctx):
     depth = 4 if ctx.quick else 6
     # shard the search by first event (each shard dedups on its own: states are counted per shard)
-    firsts = [("login", m) for m in ("result", "error", "lost", "late")]
+    firsts = [("login", m) for m in ("result", "error", "lost", "late", "held")]
     jobs = shuffled([(f, depth) for f in firsts], ctx.seed, "c14")
     states = transitions = 0
     maxd = 0
